@@ -1,4 +1,5 @@
 import LZ4V.Judge.Frame
+import LZ4V.Spec.FrameLExec
 /-!
 # Judge for CLI records
 
@@ -12,6 +13,16 @@ op 8 (a run of `lz4 -d` / `-t` on arbitrary input): input, exit status, written 
 namespace LZ4V.Judge
 open LZ4V.Spec LZ4V.Spec.Frame
 
+/-- the list specification (`Spec/FrameL.lean`, the one the C14/C15 theorems are about) and the ByteArray specification
+    must agree on every input the judges see (inputs up to 600 KB) -/
+def crossL (input dict : ByteArray) (spec : Option ByteArray) : List (String × String) :=
+  if input.size > 600000 then [] else
+  match LZ4V.Spec.FrameL.decodeStream LZ4V.Spec.FrameL.xxhEnv dict.toList input.toList, spec with
+  | .ok c, some o => if c != o.toList then [("crosscheck_frameL", s!"list specification decodes {c.length} bytes, ByteArray specification {o.size}")] else []
+  | .ok c, none => [("crosscheck_frameL", s!"list specification accepts ({c.length} bytes), ByteArray specification rejects")]
+  | .error e, some o => [("crosscheck_frameL", s!"list specification rejects ({repr e}), ByteArray specification accepts ({o.size} bytes)")]
+  | .error _, none => []
+
 def judgeCliArchive (r : Rec) : Verdict := Id.run do
   let content := r.bytes 0
   let archive := r.bytes 1
@@ -22,6 +33,7 @@ def judgeCliArchive (r : Rec) : Verdict := Id.run do
   let wantCS := r.nat 6
   let wantCC := r.nat 7
   let mut v : Verdict := {}
+  v := { v with fails := crossL archive dict (match decodeWholeStream archive dict with | .ok (o, _) => some o | .error _ => none) }
   match decodeWholeStream archive dict with
   | .error e => v := { v with fails := ("archive_rejected_by_spec", s!"{repr e}") :: v.fails }
   | .ok (out, kinds) =>
@@ -51,6 +63,7 @@ def judgeCliDecode (r : Rec) : Verdict := Id.run do
   let flags := r.nat 4
   let captured := flags % 2 == 1
   let mut v : Verdict := {}
+  v := { v with fails := crossL input dict (match decodeWholeStream input dict with | .ok (o, _) => some o | .error _ => none) }
   match decodeWholeStream input dict, exit == 0 with
   | .ok (out, kinds), true =>
     if captured && out != written then v := { v with fails := ("exit0_but_wrong_bytes", s!"written {written.size} specification {out.size}") :: v.fails }
